@@ -2,6 +2,7 @@ import CogentModel.Json
 import CogentModel.Model.AnnotDb
 import CogentModel.Model.AnnotDbRoundTrip
 import CogentModel.Model.AnnotDbX
+import CogentModel.Model.AnnotDbHist
 import CogentModel.Spec.AnnotDbX
 open CogentModel CogentModel.AnnotDb CogentModel.AnnotDbSpec CogentModel.Gen.C17Sql
 
@@ -86,43 +87,28 @@ def parseRow (j : J) : Except String GffRow := do
          attrs := ← (← j.get "attrs").toStr, start := ← (← j.get "start").toInt,
          stop := ← (← j.get "stop").toInt }
 
-/-- op machine over a register of dbs; returns every db at the end, or the error that stopped it -/
+/-- one python call of a history, as the model's `Op` -/
+def parseOp (op : J) : Except String Op := do
+  match ← op.toList with
+  | [J.str "new", k] => pure (.new (← parseKind k))
+  | [J.str "add", i, r] => pure (.add (← i.toNat) (← parseRec r))
+  | [J.str "addtable", i, t, r] => pure (.addTable (← i.toNat) (← t.toStr) (← parseRec r))
+  | [J.str "update", i, k, s] => pure (.update (← i.toNat) (← k.toNat) (← parseCondVal s))
+  | [J.str "union", i, k] => pure (.union (← i.toNat) (← k.toNat))
+  | [J.str "subset", i, q] => pure (.subset (← i.toNat) (← parseQuery q))
+  | [J.str "copy", i] => pure (.copy (← i.toNat))
+  | _ => throw "bad op"
+
+/-- op machine over a register of dbs = `stepOp` of `Model/AnnotDbHist.lean`, call by call; returns every db
+at the end, or the error that stopped it (the register is then as before the failing call) -/
 def runOps : List Db → List J → Except String (List Db × Option String)
   | dbs, [] => pure (dbs, none)
-  | dbs, op :: ops => do
-    let l ← op.toList
-    let get (i : J) : Except String Db := do
-      let n ← i.toNat
-      match dbs[n]? with | some d => pure d | none => throw "bad db index"
-    let set (i : J) (d : Db) : Except String (List Db) := do
-      let n ← i.toNat
-      pure (dbs.set n d)
-    match l with
-    | [J.str "new", k] => do runOps (dbs ++ [Db.empty (← parseKind k)]) ops
-    | [J.str "add", i, r] => do
-      let d ← get i
-      runOps (← set i (addFeature d (← parseRec r))) ops
-    | [J.str "addtable", i, t, r] => do
-      let d ← get i
-      runOps (← set i (addToTable d (← t.toStr) [← parseRec r])) ops
-    | [J.str "update", i, k, s] => do
-      let d ← get i
-      let o ← get k
-      -- `_update_db_from_other_db`: `if other_db == self: return` (same connection object)
-      if (← i.toNat) = (← k.toNat) then runOps dbs ops else
-      match update d o (← parseCondVal s) with
-      | .ok d' => runOps (← set i d') ops
-      | .error e => pure (dbs, some (errStr e))
-    | [J.str "union", i, k] => do
-      match union (← get i) (← get k) with
-      | .ok d' => runOps (dbs ++ [d']) ops
-      | .error e => pure (dbs, some (errStr e))
-    | [J.str "subset", i, q] => do
-      match subset (← get i) (← parseQuery q) with
-      | .ok d' => runOps (dbs ++ [d']) ops
-      | .error e => pure (dbs, some (errStr e))
-    | [J.str "copy", i] => do runOps (dbs ++ [← get i]) ops
-    | _ => throw "bad op"
+  | dbs, oj :: ops => do
+    let op ← parseOp oj
+    if !op.inRange dbs.length then throw "bad db index"
+    match stepOp dbs op with
+    | .ok dbs' => runOps dbs' ops
+    | .error e => pure (dbs, some (errStr e))
 
 /-! extended model: rows without location, on_alignment, GenBank record loading, children / parent -/
 
@@ -185,10 +171,13 @@ def handle (cmd : String) (j : J) : Except String J :=
                    ("records", exceptJ (fun l => J.arr (l.map xrecJ)) (getRecordsMatchingX db q oa)),
                    ("num", exceptJ (fun (n : Nat) => J.num n) (numMatchesX db q oa)),
                    ("subset", xdbJ (subsetX db q)),
-                   -- the rows the features route selects (accepted instead of a mirrored exception of an open finding)
+                   -- the rows the features route selects (accepted instead of the mirrored TypeError of the open no-location finding)
                    ("scan", J.arr ((selectFeaturesX db q oa).map xrecJ)),
                    ("scan_num", J.num (selectFeaturesX db { q with start := none, stop := none } oa).length)])
     pure (J.arr out)
+  | "xjson" => do
+    -- deserialise_object(db.to_json()) of an in-memory db, rows without location included
+    pure (xdbJ (jsonRoundTripX (← parseXDb (← j.get "db"))))
   | "gbadd" => do
     pure (J.arr ((← runGbCalls 0 (← (← j.get "calls").toList)).map xrecJ))
   | "family" => do
